@@ -12,6 +12,7 @@ import (
 	"sync"
 	"testing"
 	"testing/synctest"
+	"time"
 
 	"pgregory.net/rapid"
 
@@ -621,10 +622,26 @@ func runBubble(p Plan, foreign []state.Bookmark) (v hk.Verdict) {
 			tbStop()
 		}
 
+		// bookmarks minted by another process incarnation are rejected wherever they point
 		for _, fb := range foreign {
-			hostile = append(hostile, fb)
-
 			v.Label("foreign-incarnation-bookmark")
+
+			for _, ws := range specs {
+				_, stop, err := w.open(ws, fb, 0, false)
+				if err == nil {
+					stop()
+
+					v.Failf("%s: %s accepted bookmark %x, which was issued by another process incarnation", phase, ws, fb)
+
+					return false
+				}
+
+				if !state.IsInvalidWatchBookmarkError(err) {
+					v.Failf("%s: %s with the foreign bookmark %x failed with an error that is not invalid-bookmark: %v", phase, ws, fb, err)
+
+					return false
+				}
+			}
 		}
 
 		for _, hb := range hostile {
@@ -734,12 +751,25 @@ var foreignBookmarks = sync.OnceValue(func() []state.Bookmark {
 		return nil
 	}
 
+	// The other incarnation is started as close as possible before this process mints its own first bookmark (and not
+	// across a wall-clock second boundary): an incarnation marker derived from coarse time, a counter or a pid-free
+	// constant would then coincide. This only sharpens detection; the oracle does not depend on the clock.
+	if ns := time.Now().Nanosecond(); ns > 400_000_000 {
+		time.Sleep(time.Duration(1_000_000_000-ns) * time.Nanosecond)
+	}
+
 	cmd := exec.Command(os.Args[0], "-test.run", "^TestHelperBookmarks$")
 	cmd.Env = append(os.Environ(), "VERIF_C12_HELPER=1", "VERIF_REPLAY=", "VERIF_OUT="+hk.OutDir()+"/helper")
 
 	out, err := cmd.Output()
 	if err != nil {
 		return nil
+	}
+
+	// mint this incarnation's first bookmark right away
+	{
+		st := inmem.NewState("n0")
+		_ = st.Create(context.Background(), hres.New("n0", "TA", "first", "x"))
 	}
 
 	var res []state.Bookmark
